@@ -58,6 +58,20 @@ def matmul(
     """
     x1 = numpoly.aspolynomial(x1)
     x2 = numpoly.aspolynomial(x2)
+    axes = kwargs.pop("axes", None)
+    if axes is not None:
+        # the matrices sit on the given axes of the operands and the result
+        if len(axes) != 3 or any(len(ax) != 2 for ax in axes):
+            raise numpoly.FeatureNotSupported(
+                "matmul only supports 'axes' as three pairs of matrix axes"
+            )
+        result = matmul(
+            numpoly.moveaxis(x1, axes[0], (-2, -1)),
+            numpoly.moveaxis(x2, axes[1], (-2, -1)),
+            out=out,
+            **kwargs,
+        )
+        return numpoly.moveaxis(result, (-2, -1), axes[2])
     if not x1.shape:
         raise ValueError(ERROR_MESSAGE % 0)
     if not x2.shape:
